@@ -13,7 +13,8 @@ one() {
   [ "$tag" = C15-r3-2 ] && tier=thorough
   WT="$(mktemp -d /tmp/wt-re.XXXXXX)"; OUT="$(mktemp -d /tmp/out-re.XXXXXX)"; rmdir "$WT"
   git -C /repo worktree add -q "$WT" HEAD 2>/dev/null || { echo "RECHECK $tag worktree-failed"; return; }
-  if ! git -C "$WT" apply "$d/patch.diff" 2>/dev/null && ! (cd "$WT" && patch -s -p1 < "/verif/$d/patch.diff" >/dev/null 2>&1); then
+  pf="$d/patch.diff"; [ -e "$d/patch.rebased.diff" ] && pf="$d/patch.rebased.diff"   # rebased by hand when a later fix: commit moved the context
+  if ! git -C "$WT" apply "$pf" 2>/dev/null && ! (cd "$WT" && patch -s -p1 < "/verif/$pf" >/dev/null 2>&1); then
     echo "RECHECK $tag patch-does-not-apply"
   else
     VERIF_TIMEOUT=10m VERIF_REPO="$WT" VERIF_OUT="$OUT" ./check "$id" "$tier" >"$OUT/check.log" 2>&1; rc=$?
